@@ -107,6 +107,7 @@ def diag_trace(inp, evs):
 
 def run(rep, tier, seed, selftest):
     selftest = selftest or tier == "thorough"
+    state0 = pc.repo_state()
     common.build_harness(pc.EXE)
     meta = pc.ensure_run(tier, seed)
     p = pc.paths(meta)
@@ -137,8 +138,9 @@ def run(rep, tier, seed, selftest):
     undocumented = sorted(r.cases[0]["undocumented"])
     if (r.violated == "CatalogueHolds") != bool(undocumented):
         raise common.ToolError("catalogue check inconsistent: %s / %s" % (r.violated, undocumented))
+    findings = pc.Findings()
     for code in undocumented:
-        rep.violation("catalogue", "undocumented code %s" % letter(code),
+        findings.add(("catalogue", letter(code)), "catalogue", "undocumented code %s" % letter(code),
                       {"message": "Error::code can return %d but docs/errors.md has no section '## Error code %s'%s" %
                        (code, letter(code), " (observed in this run)" if code in observed else ""),
                        "observed_in_this_run": code in observed})
@@ -164,7 +166,6 @@ def run(rep, tier, seed, selftest):
         for n in res["notes"]:
             notes[n["what"]] = notes.get(n["what"], 0) + 1
     sigs = {}
-    findings = pc.Findings()
     nontrivial = set()
     samples = []
     for inp, evs, _ in pc.grouped_events(p["events"]):
@@ -209,19 +210,25 @@ def run(rep, tier, seed, selftest):
     # ---------------------------------------------------------------- 3. determinism
     rnd = random.Random(seed)
     k = 3 if tier == "quick" else 8
-    budget = 2500 if tier == "quick" else 12000
-    multi, single = [], []
+    budget = 6000 if tier == "quick" else 20000
+    first, multi, single = [], [], []
     for inp, evs, _ in pc.grouped_events(p["events"]):
         end, _last = pc.end_of(evs)
         if end not in ("success", "failure"):
             continue
         kind = inp["kind"].split(":")[0]
-        if inp["n"] > 1 or kind in ("corpus", "loc"):
+        if kind in ("corpus", "corpus-set", "corpus-wasm", "loc"):
+            first.append(inp["id"])
+        elif inp["n"] > 1:
             multi.append(inp["id"])
         elif kind != "tok" or rnd.random() < 0.05:
             single.append(inp["id"])
+    rnd.shuffle(multi)
     rnd.shuffle(single)
-    chosen = multi + single[:max(0, budget - len(multi))]
+    # all corpus inputs and specials, then multi-module inputs (2/3 of what is left), then single modules
+    room = max(0, budget - len(first))
+    chosen = first + multi[:(2 * room) // 3]
+    chosen = chosen + single[:max(0, budget - len(chosen))]
     chosen = chosen + [c["id"] for c in three_import_sets()]
     det_cases = os.path.join(common.WORK, "pipeline-c13-det-cases-%d.ndjson" % pid)
     extra = {c["id"]: c for c in three_import_sets()}
@@ -261,6 +268,7 @@ def run(rep, tier, seed, selftest):
                       {"case": case, "rejected_at": rej, "runs": [{k_: v for k_, v in r_.items() if k_ not in ("ev",)} for r_ in runs[:4]],
                        "message": "%d runs of the same input in fresh processes: %s differs (%d distinct observations)" %
                                   (k, rej["why"], distinct)})
+    pc.assert_same_tree(state0)
     findings.flush(rep)
     for sg, n_ in sorted(findings.counts().items(), key=lambda x: -x[1]):
         log("[findings] %5d x %s" % (n_, sg))
